@@ -19,7 +19,7 @@ from contracts.c13_serializer import new_stream, ostr, STR_HOOKS, advance_stream
 from contracts.c15_json import same
 
 MOD = 'shapes_bin'
-CLASSES = ('Suit', 'F0', 'F1', 'F2', 'F4', 'FN')
+CLASSES = ('Suit', 'F0', 'F1', 'F2', 'F4', 'FN', 'FD')
 
 
 def chunks_of(ip):
@@ -84,6 +84,8 @@ def make(E, shape):
                    d=new(E, 'F2', a=E.int('da'), b=ostr(E, 'db')))
     if shape == 'FN':
         return new(E, 'FN', e=None, n=None)
+    if shape == 'FD':
+        return new(E, 'FD', a=E.int('a'), b=ostr(E, 'b'))
     raise ValueError(shape)
 
 
@@ -301,4 +303,80 @@ for _shape in ('F0', 'F2', 'F4', 'FN'):
         replay = replay_objects
         ensures = {
             'reproduces-the-object-field-for-field': lambda result, ghost: same(ghost.value, result),
+        }
+
+
+# ------------------------------------------------------------------------------------------ C14: a peer announcing fewer fields
+def supported_value(ip, v):
+    t = ops.pytype(v)
+    if t in ('bool', 'int', 'real', 'str', 'bytes', 'none', 'list', 'dict', 'set'):
+        return True
+    return isinstance(v, Obj) and v.cls is not None and v.cls.name in CLASSES
+
+
+def fields_supported(ip, result):
+    """every field of the decoded object (instance attribute, else the class attribute Python would find) holds a value of a
+    supported or registered type - in particular never the serializable.Default sentinel"""
+    if not (isinstance(result, Obj) and result.cls is not None and result.cls.name in CLASSES):
+        return False
+    for f in result.cls.class_attrs['_fields']:
+        if f in result.attrs:
+            v = result.attrs[f]
+        else:
+            found, v = ip.class_attr(result.cls, f)
+            if not found:
+                return False
+        if isinstance(v, Obj) and v.tag == 'garbage':
+            continue        # whatever the nested decoder returned: its own contract (deserialize_value@hostile-bytes)
+        if not supported_value(ip, v):
+            return False
+    return True
+
+
+def replay_short(label, model):
+    return '''
+import sys, io, struct
+from mpgameserver.serializable import Serializable, Default, serialize_value, deserialize_value
+class FD(Serializable):
+    a: int = Default
+    b: str = "dflt"
+bad = []
+for k in (0, 1, 2):
+    s = io.BytesIO(); s.write(struct.pack(">H", FD.type_id)); serialize_value(s, k)
+    for v in (7, "x")[:k]: serialize_value(s, v)
+    try:
+        o = deserialize_value(io.BytesIO(s.getvalue()))
+    except Exception as e:
+        continue
+    for f in o._fields:
+        v = getattr(o, f)
+        if not isinstance(v, (bool, int, float, str, bytes, type(None), list, dict, set, Serializable)):
+            bad.append("field count %d: field %s holds %r" % (k, f, v))
+for b in bad: print(b)
+sys.exit(1 if bad else 0)
+'''
+
+
+for _k in (0, 1, 2):
+    @contract('serializable.deserialize_value', props=['C14'], variant='short-field-count-%d' % _k)
+    class _:
+        """hostile but well-formed bytes: the type id of a registered class, then a field count SMALLER than (or equal to) the
+        number of fields the class has, then that many values: the result is composed of supported and registered types only"""
+        def setup(E, _k=_k):
+            ip = E.ip
+            reg = registry_for(E)
+            info = E.cls(MOD + '.FD')
+            s = new_stream(E)
+            s.m_write(ip, E.pack('>H', info.class_attrs['type_id']))
+            ser_model(ip, s, _k)
+            for i in range(_k):
+                ser_model(ip, s, E.int('w%d' % i))
+            r = new_stream(E, ops.bytes_concat([s.buf, E.bytes('rest')]))
+            return {'stream': r, '__kwargs__': {'registry': reg}}
+        hooks = HOOKS
+        replay = replay_short
+        may_raise = ['Exception']
+        finish = lambda ip, env: env.__setitem__('ip', ip)
+        ensures = {
+            'every-field-holds-a-supported-value': lambda ip, result: fields_supported(ip, result),
         }
